@@ -132,6 +132,24 @@ def run(ctx):
         ctx.case(("corpus", p))
         if not replay(ctx, data):
             ctx.violation("corpus case %s fails" % os.path.basename(p), data)
+    # function level: the model's strict UTF-8 test vs CPython's decoder (what makes a file "unreadable")
+    if ctx.km:
+        pool = [b"a", b"\n", b"\x00", b"\xc3\xa9", b"\xe4\xb8\xad", b"\xf0\x9f\x98\x80", b"\xe9", b"\xff", b"\xfe", b"\xc0\xaf", b"\xed\xa0\x80",
+                b"\xe2\x82", b"\xf4\x90\x80\x80", b"\xf4\x8f\xbf\xbf", b"\xe0\x9f\xbf", b"\xe0\xa0\x80", b"\x80", b"\xbf", b"\xc2", b"\xf0\x90\x80"]
+        for i in range(ctx.budget(1500, 30000)):
+            b = b"".join(ctx.rng.choice(pool) for _ in range(ctx.rng.randint(0, 6)))
+            if ctx.rng.random() < 0.3:
+                b = bytes(ctx.rng.randrange(256) for _ in range(ctx.rng.randint(1, 5)))
+            try:
+                b.decode("utf-8")
+                impl = True
+            except UnicodeDecodeError:
+                impl = False
+            ctx.case(("utf8", b), nontrivial=not impl)
+            if (ctx.km.call("utf8_valid", b) == b"1") != impl:
+                ctx.tie_broken("correspondence: bytes.decode('utf-8') vs Model.Preserve.utf8_valid", {"bytes": b, "impl": impl})
+                break
+        ctx.count("f_utf8_valid", 1)
     n = ctx.budget(200, 5000)
     for i in range(n):
         sp = ctx.rng.choice(["abs", "rel", "trail", "dot"])
